@@ -26,6 +26,8 @@ def render(rdflib) -> str:
     out.append(f"Definition xsd_string : list N := {_s(T._XSD_STRING)}.")
     out.append(f"Definition xsd_integer : list N := {_s(T._XSD_INTEGER)}.")
     out.append(f"Definition xsd_decimal : list N := {_s(T._XSD_DECIMAL)}.")
+    out.append(f"Definition xsd_duration : list N := {_s(T._XSD_DURATION)}.")
+    out.append(f"Definition xsd_yearmonthduration : list N := {_s(T._XSD_YEARMONTHDURATION)}.")
     out.append("(* rdflib.term._NUMERIC_LITERAL_TYPES *)")
     out.append("Definition numeric_types : list (list N) := [" + ";\n  ".join(_s(x) for x in T._NUMERIC_LITERAL_TYPES) + "].")
     out.append("(* rdflib.term._NUMERIC_INF_NAN_LITERAL_TYPES *)")
